@@ -81,7 +81,9 @@ def gen_workload(seed, wi):
     return {"world": world, "samples": {"s0": smp}, "params": params, "build": "hg19",
             "out": rng.choice(["aldy", "vcf", "simple", "simple", "none"]),
             "hashseed": rng.choice([0, 1, 2, 3]),
-            "adversary": rng.choice([None, None, rng.randint(0, 10**9)])}
+            "adversary": rng.choice([None, None, rng.randint(0, 10**9)]),
+            # report=True is what the command line passes: the summary of the results is printed as well
+            "report": rng.random() < 0.5}
 
 
 def _novel_near_tie(rng):
@@ -130,6 +132,7 @@ def gen_plan(rng, tier, i, seed):
                        "max_minor_solutions": rng.choice([1, 2, 3])}
         w["out"] = rng.choice(["aldy", "vcf", "simple", "none"])
         w["hashseed"] = rng.choice([0, 1, 2, 3])
+        w["report"] = rng.random() < 0.5
         w["script"] = {"seed": rng.randint(0, 10**9), "mode": rng.choice(SCRIPT_MODES),
                        "n_cn": rng.choice([0, 1, 1, 2, 2, 2, 3, 3]), "empty_major": rng.random() < 0.12,
                        "empty_minor": rng.random() < 0.12}
@@ -153,7 +156,7 @@ def _materialise(runner, w):
 def _seg(w, worlddir, man, rundir, sim, tag):
     return {"kind": "run", "hashseed": w["hashseed"], "worlddir": worlddir, "man": man, "rundir": rundir,
             "params": w["params"], "out": w["out"], "build": w["build"], "sim": sim, "tag": tag,
-            "gene": w["world"]["genes"][0]["name"], "script": w.get("script")}
+            "gene": w["world"]["genes"][0]["name"], "script": w.get("script"), "report": bool(w.get("report"))}
 
 
 def execute(plan, runner, rundir):
@@ -171,7 +174,7 @@ def execute(plan, runner, rundir):
             shutil.rmtree(rd, ignore_errors=True)
 
     pil = runner.memoised(("pilot", wd, canon.digest([w["params"], w["out"], w["hashseed"], w["adversary"],
-                                                       w.get("script")])), pilot)
+                                                       w.get("script"), w.get("report")])), pilot)
     n = pil["solves"]
     runs = []
     for k, kind in plan["faults"]:
@@ -713,7 +716,7 @@ def run_segment(seg):
     if seg.get("script"):
         _install_script(seg["script"], seg["params"].get("gap", 0))
     rec = O.run_genotype(db, os.path.join(wd, man["samples"]["s0"]), os.path.join(wd, man["ref_bam"]), outp,
-                         cn_region=man["neutral"], params=seg["params"])
+                         cn_region=man["neutral"], params=seg["params"], report=bool(seg.get("report")))
     raw = rec.pop("_raw", None)
     res_list = list(raw.values())[0] if raw else []
     viol = []
